@@ -35,6 +35,13 @@ func (C03) Generate(r *core.Rand, tier string, idx int) *core.Scenario {
 	if r.P(1, 8) {
 		sc.Cfg["appdel"] = 1 // allow APPEND with \Deleted in its flag list
 	}
+	// input classes whose defects (F03, F04) were repaired: sets naming a message twice and
+	// sets written in descending order, each in half of the runs
+	for _, k := range []string{"dupset", "revlist"} {
+		if r.P(1, 2) {
+			sc.Cfg[k] = 1
+		}
+	}
 	if idx%20 == 7 {
 		// bulk run: a mailbox filled through one connector batch with a size on either side
 		// of the index's statement-batching limit (db.ChunkLimit = 1000, some statements
